@@ -18,6 +18,21 @@ import (
 type dec struct {
 	K int8 // 0/1 branch, 2 choose value, 3 concretize eq, 4 concretize neq
 	V int64
+	H uint32 // hash of the program position where the decision was taken (replay alignment guard)
+}
+
+func (w *Worker) posHash() uint32 {
+	h := uint32(2166136261)
+	for _, c := range []byte(w.curPos()) {
+		h = (h ^ uint32(c)) * 16777619
+	}
+	return h
+}
+
+func (w *Worker) checkAlign(d dec) {
+	if d.H != 0 && d.H != w.posHash() {
+		w.fail("replay misaligned: decision recorded at another program position (now at %s)", w.curPos())
+	}
 }
 
 type jent struct {
@@ -520,12 +535,19 @@ func (w *Worker) decide(c *Term) bool {
 		w.fail("symbolic decision in concrete mode: %s", c)
 	}
 	if w.pos < len(w.prefix) {
+		// mirror the original run exactly: it flushed (and thereby assumed) the pending
+		// obligations before taking this decision
+		w.flush()
+		if v, ok := w.lookupKnown(c); ok {
+			return v
+		}
 		d := w.prefix[w.pos]
 		w.pos++
 		w.trace = append(w.trace, d)
 		if d.K != 0 && d.K != 1 {
 			w.fail("replay mismatch: expected branch decision, got %v", d)
 		}
+		w.checkAlign(d)
 		if d.K == 1 {
 			w.addPC(c)
 		} else {
@@ -563,7 +585,7 @@ func (w *Worker) decide(c *Term) bool {
 	var take bool
 	switch {
 	case tv == Sat && fv == Sat:
-		alt := append(append([]dec{}, w.trace...), dec{K: 0})
+		alt := append(append([]dec{}, w.trace...), dec{K: 0, H: w.posHash()})
 		var am Model
 		if w.model.Eval(c) != 0 {
 			am = altModel // model of PC ∧ ¬c
@@ -580,13 +602,13 @@ func (w *Worker) decide(c *Term) bool {
 		panic(pathEnd{kind: "infeasible"})
 	}
 	if take {
-		w.trace = append(w.trace, dec{K: 1})
+		w.trace = append(w.trace, dec{K: 1, H: w.posHash()})
 		if w.model.Eval(c) == 0 && altModel != nil {
 			w.model = altModel
 		}
 		w.addPC(c)
 	} else {
-		w.trace = append(w.trace, dec{K: 0})
+		w.trace = append(w.trace, dec{K: 0, H: w.posHash()})
 		if w.model.Eval(nc) == 0 && altModel != nil {
 			w.model = altModel
 		}
@@ -615,15 +637,16 @@ func (w *Worker) choose(lo, hi int64) int64 {
 		if d.K != 2 {
 			w.fail("replay mismatch: expected choose, got %v", d)
 		}
+		w.checkAlign(d)
 		v = d.V
 	} else {
 		v = lo
 		for k := hi; k > lo; k-- {
-			alt := append(append([]dec{}, w.trace...), dec{K: 2, V: k})
+			alt := append(append([]dec{}, w.trace...), dec{K: 2, V: k, H: w.posHash()})
 			w.pushWork(alt, w.model)
 		}
 	}
-	w.trace = append(w.trace, dec{K: 2, V: v})
+	w.trace = append(w.trace, dec{K: 2, V: v, H: w.posHash()})
 	w.nondet = append(w.nondet, ndEntry{kind: "choose", v: v})
 	return v
 }
@@ -647,10 +670,12 @@ func (w *Worker) concretize(t *Term, what string) uint64 {
 	}
 	for {
 		if w.pos < len(w.prefix) {
+			w.flush()
 			d := w.prefix[w.pos]
 			w.pos++
 			w.trace = append(w.trace, d)
 			k := w.B.Const(uint64(d.V), t.W)
+			w.checkAlign(d)
 			if d.K == 3 {
 				w.addPC(w.B.Eq(t, k))
 				return k.Val
@@ -669,10 +694,10 @@ func (w *Worker) concretize(t *Term, what string) uint64 {
 		k := w.B.Const(v, t.W)
 		eq := w.B.Eq(t, k)
 		if fv, am := w.feasibleM(w.B.Not(eq)); fv != Unsat {
-			alt := append(append([]dec{}, w.trace...), dec{K: 4, V: int64(v)})
+			alt := append(append([]dec{}, w.trace...), dec{K: 4, V: int64(v), H: w.posHash()})
 			w.pushWork(alt, am)
 		}
-		w.trace = append(w.trace, dec{K: 3, V: int64(v)})
+		w.trace = append(w.trace, dec{K: 3, V: int64(v), H: w.posHash()})
 		w.addPC(eq)
 		return v
 	}
